@@ -24,7 +24,9 @@ PatVerdict(e) ==
        IF Len(e.bytes) # 188 \/ Get("pid", e.bytes) # 0 \/ ~HasPayload(e.bytes) \/ ~IsPatPayload(PayloadOf(e.bytes), pat) THEN "harness-bad-bytes"
        ELSE Observed(e, pat)
   ELSE IF e.carrier = "stream" THEN
-       IF PatPkts(e.stream) = {} THEN (IF e.err # "notfound" THEN "pat-not-found-error" ELSE "")
+       \* (e.lead_n copies of the packet e.lead of another PID come first: they do not change which PID-0 packet is the first)
+       IF e.lead_n > 0 /\ (Len(e.lead) # 188 \/ Get("pid", e.lead) = 0) THEN "harness-bad-lead"
+       ELSE IF PatPkts(e.stream) = {} THEN (IF e.err # "notfound" THEN "pat-not-found-error" ELSE "")
        ELSE LET p == e.stream[FirstPatIdx(e.stream)] IN
             IF ~HasPayload(p) \/ ~IsPatPayload(PayloadOf(p), pat) THEN "harness-bad-bytes" ELSE Observed(e, pat)
   ELSE "harness-unknown-carrier"
